@@ -319,6 +319,40 @@ fn check_value_text(ctx: &mut Ctx, t: &[u8], seed: u64) {
             ctx.fail("reject-valid:try_from.to_lazyvalue:input-discarded", "no value".into());
         }
     }
+    // raw-text exports outlive the lazy value they were taken from (`as_raw_cow` is tied to the
+    // input lifetime, `as_raw_faststr` owns a handle): the value is dropped, some stack and heap is
+    // churned, then the export is compared
+    {
+        let by = bytes::Bytes::copy_from_slice(&wex);
+        let fs = FastStr::new(std::str::from_utf8(&wex).unwrap());
+        let mut exports: Vec<(&str, std::borrow::Cow<str>, FastStr)> = vec![];
+        if let Ok(lv) = sonic_rs::from_str::<LazyValue>(ps) {
+            exports.push(("serde", lv.as_raw_cow(), lv.as_raw_faststr()));
+            drop(lv);
+        }
+        if let Ok(lv) = sonic_rs::get(&by, sonic_rs::pointer!["k", 1]) {
+            exports.push(("get(&Bytes)", lv.as_raw_cow(), lv.as_raw_faststr()));
+            drop(lv);
+        }
+        if let Ok(lv) = sonic_rs::get(&fs, sonic_rs::pointer!["k", 1]) {
+            let c = lv.clone();
+            exports.push(("get(&FastStr)", lv.as_raw_cow(), c.as_raw_faststr()));
+            drop(lv);
+            drop(c);
+        }
+        if let Ok(lv) = sonic_rs::get(&wex[..], sonic_rs::pointer!["k", 1]) {
+            exports.push(("get(&[u8])", lv.as_raw_cow(), lv.as_raw_faststr()));
+        }
+        // churn: what the dropped values occupied is reused
+        let churn: Vec<String> = (0..8).map(|i| format!("{:>width$}", i, width = 8 + t.len() % 40)).collect();
+        std::hint::black_box(&churn);
+        ctx.ops(1);
+        for (name, cow, f) in &exports {
+            if cow.as_bytes() != t || f.as_bytes() != t {
+                ctx.fail(&format!("raw-export-differs-after-drop:{}", name), format!("as_raw_cow {:?} / as_raw_faststr {:?} after the LazyValue was dropped, source {:?}", crate::core::truncate(cow, 80), crate::core::truncate(f, 80), crate::core::truncate(&String::from_utf8_lossy(t), 80)));
+            }
+        }
+    }
     // OwnedLazyValue from serde
     match sonic_rs::from_str::<OwnedLazyValue>(ps) {
         Ok(ov) => {
